@@ -214,7 +214,7 @@ def check_merge(case, obs, old, inc, after):
         if want is not None and not (has and pv.pv_equal(av, want)):
             out.append(fail('overwrite', f'{show(here)}: incoming {v!r} over {"nothing" if absent else repr(ov)} '
                                          f'left {av!r}', fp('scalar-not-overwritten', here)))
-        if want is None and (isinstance(v, str) or is_tag(v)) and not under_shared(here, shared):
+        if want is None and (isinstance(v, str) or is_tag(v)) and not obs.get('shares_anywhere'):
             outs = named_of.outputs(v)
             if not (has and any(pv.pv_equal(av, o) for o in outs)):
                 out.append(fail('overwrite', f'{show(here)}: incoming {v!r} left {av!r}, which is not what it '
@@ -295,6 +295,45 @@ def check_defaults(case, obs, old, inc, after):
     return out
 
 
+def tree_nodes(v, acc):
+    """every key and value node of an incoming pv tree"""
+    acc.append(v)
+    if isinstance(v, dict):
+        if 'd' in v:
+            for k, x in v['d']:
+                acc.append(k)
+                tree_nodes(x, acc)
+        else:
+            for t in ('l', 't', 's'):
+                if t in v:
+                    for x in v[t]:
+                        tree_nodes(x, acc)
+            if 'jsonify' in v:
+                tree_nodes(v['jsonify'], acc)
+    return acc
+
+
+def check_formats_incoming_only(case, obs):
+    """"apply formatting to incoming keys and values": everything the operation handed to
+    Context.get_formatted_value must be a key or a value of the incoming tree — never existing
+    context content (whose braces are data)."""
+    nodes = tree_nodes({'d': case['inc']}, [])
+    # a !jsonify object formats its inner value through the context when it is itself formatted:
+    # the inner values of those stored in the context can legitimately show up
+    for tree in (obs['ctx_before'], obs['ctx_after']):
+        for n in tree_nodes(tree, []):
+            if isinstance(n, dict) and 'jsonify' in n:
+                nodes.append(n['jsonify'])
+    out = []
+    for inp in obs.get('fmt_inputs', []):
+        if not any(pv.pv_equal(inp, n) for n in nodes):
+            out.append(fail('formats-incoming-only',
+                            f'formatted {inp!r}, which is not a key or value of the incoming mapping '
+                            f'(result {obs["res"]!r})', 'formatted-non-incoming'))
+            break
+    return out
+
+
 def check(case, obs):
     if obs.get('cyclic'):
         return []
@@ -304,6 +343,7 @@ def check(case, obs):
     inc = case['inc']
     if not obs.get('rerun_same', True):
         out.append(fail('harness', 'two runs of the same case gave different results', 'nondeterministic'))
+    out += check_formats_incoming_only(case, obs)
     if case['op'] == 'merge':
         out += check_merge(case, obs, old, inc, after)
     else:
